@@ -24,6 +24,7 @@ SYMBOL_POOLS = {
     "int": {"a": 0, "b": 1, "c": 2},
     "long": {"a": "ab", "b": "b", "c": "a"},
     "neg": {"a": -1, "b": -2, "c": -3},          # hash(-1) == hash(-2) in CPython
+    "ntlike": {"a": "a", "b": "A", "c": "B"},      # letters spelled like the non-terminals of an indexed grammar
     "mixedsym": {"a": 1, "b": "a", "c": "1"},    # values of different types in one alphabet (not mutually orderable)
     # the documented string spellings of the epsilon symbol instead of the Epsilon object
     "ab-epsilon-word": {"a": "a", "b": "b", "c": "c", "eps": "epsilon"},
